@@ -309,6 +309,22 @@ ROUND5 = {'C01': ' List-valued fields carry 2-4 elements in caller-chosen orders
 for _pid, _t in ROUND5.items():
     CHECKS[_pid]['text'] += _t
 
+ROUND6 = {'C02': ' Identifiers of up to 2000 characters make the quoted error messages long.',
+          'C03': ' The generated policies reach the server through JSON policy files read by the repository loader (several policies per file).',
+          'C04': ' Keys whose mask holds every usage bit except the nine gating ones (Export, Unrestricted, the 2.0-only bits) under 1.x and 2.0.',
+          'C05': ' Owners destroy a third of the objects; every other object must still read back as stored.',
+          'C06': ' A key wrapped twice and then used in one batch: both wrapped copies and the cipher text against the references.',
+          'C07': ' Destroys while monitoring clients probe (Query / DiscoverVersions) on threads of their own.',
+          'C08': ' Placeholder batches with a failing item while other clients are being served.',
+          'C09': ' After a death that leaves a journal the server is the first to open the store (the harness no longer reads it before).',
+          'C12': ' Another connection must be answered after a connection sent a refused or undecodable request (engine lock found held at quiescence).',
+          'C13': ' Keys registered already wrapped with every subset of the key wrapping data, read back in every format.',
+          'C14': ' Attribute and state changes between the Locates; the changed values (old and new) are searched for.',
+          'C19': ' Responses that end inside an item with a matching frame header must raise; names outside ASCII.',
+          'C20': ' A derivation whose value is known is repeated with every kind of template attribute under 1.2 / 1.4 / 2.0.'}
+for _pid, _t in ROUND6.items():
+    CHECKS[_pid]['text'] += _t
+
 def build():
     with open(os.path.join(ROOT, 'properties.jsonl')) as f:
         pids = [json.loads(l)['id'] for l in f if l.strip()]
